@@ -14,6 +14,8 @@ absolute / relative alphas, with rigid fold sizes N1 != N2:
  R-ALPHA     alpha_ = alphas[argmax(cv_values_)], best_score_ = max, relative
              scaling touches a copy of the grid only;
  R-FOLDS     folds come from KFold(2, shuffle, random_state) or check_cv(cv), first split;
+             split() is called exactly once per fit (a splitter carrying a RandomState
+             instance deals other folds at a second call);
  Shape       no dimension conflict with N1 != N2, coef_ (n_targets, n_features),
              predict = X @ coef_^T.
 Not decided: numerical agreement with an independent ridge solve.
@@ -112,6 +114,10 @@ def check(ctx):
             ctx.ob("R-FOLDS", f"default folds = KFold(2, shuffle, random_state) [{cfg}]", ok, f"{[{k: repr(v.term) for k, v in e['kwargs'].items()} for e in news]}", ctx.site(P.method(cls, 'fit')), cfg)
             na = seen.get("next_arg")
             ctx.ob("R-FOLDS", f"first split of cv.split(X) [{cfg}]", na is not None and any(x.op == "mcall" and x.args[1] == "split" and x.args[2] and x.args[2][0] == X.term for x in tq.walk_all(na.term)), f"{None if na is None else repr(na.term)[:120]}", ctx.site(P.method(cls, 'fit')), cfg)
+            # the splitter is asked once: a splitter that carries a RandomState instance (shuffle=True with a generator
+            # as random_state, or a user splitter) deals other folds at every call of split()
+            nsplit = [e for e in I.events[lo:] if e["kind"] == "extcall" and e.get("method") == "split"]
+            ctx.ob("R-FOLDS", f"split() is called once per fit (a stateful splitter deals other folds the second time) [{cfg}]", len(nsplit) == 1, f"{len(nsplit)} call(s) of split at {[e.get('line') for e in nsplit]}", ctx.site(P.method(cls, 'fit')), cfg)
             # predict
             Xv = arr("Xv", "V", "M")
             lo = len(I.events)
